@@ -361,7 +361,7 @@ class C09(DiffProperty):
                   "names with newline, delimiter, comment character, path separator '.', blanks at the ends, empty names, names "
                   "above 65534 bytes, and values that end in a backslash AND cannot be written plain.  An empty value and no value "
                   "are the same observation.  Metatype storage (inline below 250 bytes, buffer above) is modelled for its bytes "
-                  "only.  The theorems hold for the tree with the fix: commits listed in docs/notes_C09.md.  All 7 theorems are "
+                  "only.  The theorems hold for /repo main with the fix: commits listed in docs/notes_C09.md.  All 7 theorems are "
                   "closed under the global context (no axioms).")
     technique = "Coq proof (print/parse round trip by induction over the tree) + differential correspondence check"
     assumptions = ["allocation succeeds", "value lengths stay below 2^32 (width of parser_context.valid after the fix) and INT_MAX"]
